@@ -20,10 +20,10 @@ out = {}
 
 
 def add(prop, f, kinds, pred=None, extra=None, why=""):
-    for s, ek, fp, text in guard_instances(f, kinds=kinds, extra=extra):
-        if pred is not None and not pred(s, ek, text):
+    for g in guard_instances(f, kinds=kinds, extra=extra):
+        if pred is not None and not pred(g.stmt, g.exit, g.text):
             continue
-        e = {"func": f.fq, "exit": ek, "fp": fp, "text": text, "why": why}
+        e = {"func": f.fq, **g.to_json(), "why": why}
         if e not in out.setdefault(prop, []):
             out[prop].append(e)
 
